@@ -39,10 +39,14 @@ func runC18(c *core.Ctx) {
 	c18R2(c)
 	c18R3(c)
 	c18R4(c)
+	jsonTargetRule(c, "C18.R5", "service/presence")
 }
 
-func c18R1(c *core.Ctx) {
-	rule := "C18.R1"
+func c18R1(c *core.Ctx) { c18R1as(c, "C18.R1") }
+
+// c18R1as/c18R2as emit the presence-notification obligations under another rule id (C08: a
+// connection that ends "tells presence watchers it left").
+func c18R1as(c *core.Ctx, rule string) {
 	c.Rule(rule, "pubsub.Service.Subscribe/Unsubscribe: exactly one Notify{Subscribe,Unsubscribe}(sub, ev) call, outside loops, cut off by the bookkeeping (not a Conn or Can*=true), on every admitted path, Subscribe's after the trie insert; broker NotifySubscribe/NotifyUnsubscribe: presence.Notify(type, ev, …) for SubscriberDirect with ev.Channel != nil, with EventTypeSubscribe / EventTypeUnsubscribe respectively", 5)
 	for _, k := range []struct {
 		name, notify, can, trie string
@@ -123,8 +127,9 @@ func c18R1(c *core.Ctx) {
 	}
 }
 
-func c18R2(c *core.Ctx) {
-	rule := "C18.R2"
+func c18R2(c *core.Ctx) { c18R2as(c, "C18.R2") }
+
+func c18R2as(c *core.Ctx, rule string) {
 	c.Rule(rule, "presence.Notify is one unconditional blocking send of newNotification(type, ev, filter) on s.queue (no go/select); exactly one goroutine in the presence package receives from s.queue and calls s.send for each notification; send publishes synchronously", 3)
 	f := fn(c, rule, "internal/service/presence", "Service", "Notify")
 	if f == nil {
